@@ -20,6 +20,9 @@ static void f_K_init(void) {} static uint32_t f_K_timeout_event(uint32_t i) { re
 void f_K_init(void); uint32_t f_K_timeout_event(uint32_t); uint32_t f_K_is_blocked(uint32_t); uint32_t f_K_can_timeout(uint32_t); void f_K_try_unblock(uint32_t);
 #endif
 void f_world_init(void); void f_world_final(uint32_t all_done, uint32_t stuck);
+#ifdef VERIF_WORLD_STEP
+void f_world_step(void);   /* state invariant judged between any two execution slices */
+#endif
 int run_f_thread_entry_0(int); int run_f_thread_entry_1(int);
 #if NT > 2
 int run_f_thread_entry_2(int);
@@ -44,6 +47,9 @@ void f_sched(void) {
   int alive = NT;
   for (int s = 0; s < SLICES; s++) {
     if (!alive) break;
+#ifdef VERIF_WORLD_STEP
+    f_world_step();
+#endif
 #define RUNNABLE(i) (st[i] != 0 && (!f_K_is_blocked(i) || f_K_can_timeout(i)))
     { int anyrun = RUNNABLE(0) || RUNNABLE(1)
 #if NT > 2
